@@ -75,6 +75,11 @@ def vector_max(*args):
     return reduce(np.maximum, args)
 
 
+# Only the AST node types below may appear in a function string (numbers, names, arithmetic, comparisons, calls)
+supported_nodes = (ast.Expression, ast.BinOp, ast.UnaryOp, ast.Compare, ast.Call, ast.Name, ast.Load, ast.Constant)
+supported_nodes += (ast.Add, ast.Sub, ast.Mult, ast.Div, ast.Pow, ast.Mod, ast.FloorDiv, ast.USub, ast.UAdd)
+supported_nodes += (ast.Lt, ast.LtE, ast.Gt, ast.GtE, ast.Eq, ast.NotEq)
+
 # Only calls to functions in the dict below will be permitted
 supported_functions = {"max": vector_max, "min": vector_min, "exp": np.exp, "floor": np.floor, "SRC_POP_AVG": None, "TGT_POP_AVG": None, "SRC_POP_SUM": None, "TGT_POP_SUM": None, "STITCH_AVG": None, "STITCH_SUM": None, "pi": np.pi, "cos": np.cos, "sin": np.sin, "sqrt": np.sqrt, "ln": np.log, "rand": np.random.rand, "randn": np.random.randn, "sdiv": sdiv}
 
@@ -149,10 +154,14 @@ def parse_function(fcn_str: str) -> tuple:
     fcn_ast = ast.fix_missing_locations(fcn_ast)
     dep_list = []
     for node in ast.walk(fcn_ast):
+        assert isinstance(node, supported_nodes), f"Only numbers, variables, arithmetic and calls to supported functions are allowed ({type(node).__name__} in {fcn_str} is not supported)"
         if isinstance(node, ast.Name) and node.id not in supported_functions:
             dep_list.append(node.id)
-        elif isinstance(node, ast.Call) and hasattr(node, "func") and hasattr(node.func, "id"):
-            assert node.func.id in supported_functions, f"Only calls to supported functions are allowed ({node.func.id} in {fcn_str} is not supported)"
+        elif isinstance(node, ast.Constant):
+            assert isinstance(node.value, (int, float)), f"Only numeric constants are allowed ({node.value!r} in {fcn_str} is not supported)"
+        elif isinstance(node, ast.Call):
+            fcn_name = node.func.id if isinstance(node.func, ast.Name) else None  # e.g. method calls have no name
+            assert fcn_name in supported_functions, f"Only calls to supported functions are allowed ({fcn_name} in {fcn_str} is not supported)"
     compiled_code = compile(fcn_ast, filename="<ast>", mode="eval")
 
     def fcn(**deps):
